@@ -150,6 +150,9 @@ structure Base where
   tainted : Bool := false
   cfg : OCfg := {}
   operate : Bool := false
+  /-- number of `enter_operate()` calls so far (a repeated call is inside the contract: it only makes
+  a global-control broadcast due at once; seed C14-m6) -/
+  opCount : Nat := 0
   /-- address a reply is outstanding from, with the request -/
   outstanding : Option (Nat × Option OReq) := none
   now : Option Int := none
@@ -233,7 +236,7 @@ def baseStep (b : Base) (w : List String) (obs : String) : Base × Seen × List 
       else ({ b1 with alive := false }, .skip, views)
     | none => (b1, .skip, views)
   | ["dp.operate"] =>
-    ({ b1 with operate := true, inContract := b.inContract && !b.operate }, .user, views)
+    ({ b1 with operate := true, opCount := b.opCount + 1 }, .user, views)
   | ["dp.tx", now, hp] =>
     match intOf? now with
     | none => (b1, .skip, views)
@@ -666,6 +669,8 @@ def wantGc (c : OCfg) : Header :=
 def oracle14 (b b' : Base) (seen : Seen) (views : List PView) (o : O14) : O14 × Verdict :=
   let c := b'.cfg
   let fail := fun (o : O14) (why : String) => ({ o with justTaken := false }, some ("C14", why))
+  -- `enter_operate()` again: `last_global_control = None`, the broadcast is due at the next poll
+  let o := if b'.opCount != b.opCount then { o with lastGc := none } else o
   match seen with
   | .tx now hp t =>
     let o := { o with justTaken := false }
